@@ -289,6 +289,7 @@ pub fn judge(c: &Case, fit: &Fitted, obs: &mut Obs) {
     // ---------------------------------------------------------------- per leaf
     let mut weighted_tie = false;
     let mut depth_binding = false;
+    let mut floor_mws_leaf = false;
     for (i, nd) in nodes.iter().enumerate() {
         if !nd.is_leaf {
             continue;
@@ -312,8 +313,18 @@ pub fn judge(c: &Case, fit: &Fitted, obs: &mut Obs) {
         if modes.len() >= 2 {
             weighted_tie = true;
         }
-        if f.iter().filter(|v| **v > 0.0).count() >= 2 && c.max_depth.map(|d| d as usize == nd.depth).unwrap_or(false) {
+        let impure = f.iter().filter(|v| **v > 0.0).count() >= 2;
+        if impure && c.max_depth.map(|d| d as usize == nd.depth).unwrap_or(false) {
             depth_binding = true;
+        }
+        // the corner of a non-integral min_weight_split: a node holding exactly floor(mws) rows of
+        // several classes must stay a leaf (unless max_depth already stops it, it is this bound that does)
+        if impure
+            && c.min_weight_split.fract() != 0.0
+            && mine.len() == c.min_weight_split.floor() as usize
+            && c.max_depth.map(|d| (d as usize) > nd.depth).unwrap_or(true)
+        {
+            floor_mws_leaf = true;
         }
         if pred < 0 || !modes.contains(&(pred as usize)) {
             loc.push(Local {
@@ -329,6 +340,7 @@ pub fn judge(c: &Case, fit: &Fitted, obs: &mut Obs) {
     }
     obs.class_if(weighted_tie, "leaf_weighted_tie");
     obs.class_if(depth_binding, "max_depth_binding");
+    obs.class_if(floor_mws_leaf, "impure_leaf_with_floor_min_weight_split_rows");
 
     // ---------------------------------------------------------------- predict on the training rows
     if obs.ensure(fit.pred_train.len() == n, "predict:length", || {
@@ -453,7 +465,7 @@ pub fn judge(c: &Case, fit: &Fitted, obs: &mut Obs) {
         obs.fail(
             SIG_ROUNDED,
             format!(
-                "node {first} splits feature {} at {:?}, which is itself a training value reaching the node (the midpoint of two neighbouring floats rounded onto one of them); fit routes such a row with `<=`, predict with `<`. Consequences below that node: {}",
+                "node {first} splits feature {} at {:?}, which is itself a training value reaching the node (the midpoint of two neighbouring floats rounded onto one of them), so a fit that partitions with `<=` disagrees with predict's `<` there (defect fixed by b84e128). Failures at or below that node: {}",
                 nd.feat,
                 nd.thr,
                 rounded.join(" | ")
